@@ -117,6 +117,12 @@ class Values:
                     caller, arg, cenv = env[e.id]
                     return self.trace(caller, cenv, arg, _depth + 1)
                 return f, env, e
+            hows = sc.defs.get(e.id, [])
+            if len(hows) == 1 and hows[0][0] == "iter" and e.id not in self._augmented(f):
+                # `for x in (y,)`: the loop variable is y
+                fr2, env2, it = self.trace(f, env, hows[0][1], _depth + 1)
+                if isinstance(it, (ast.Tuple, ast.List)) and len(it.elts) == 1 and not isinstance(it.elts[0], ast.Starred):
+                    return self.trace(fr2, env2, it.elts[0], _depth + 1)
             if bs is not None:
                 # `x = None` placeholders before the real binding do not count
                 real = [b for b in bs if not (isinstance(b, ast.Constant) and b.value is None)]
